@@ -264,7 +264,7 @@ func doExplore(t *testing.T, job *Job) {
 					h = res.TraceHash + "!=rerun:" + res2.TraceHash
 				}
 			}
-			emit(map[string]any{"t": "h", "i": idx, "h": h, "steps": res.Steps, "trace": res.Trace})
+			emit(map[string]any{"t": "h", "i": idx, "h": h, "steps": res.Steps, "trace": res.Trace, "probes": res.Probes})
 		}
 		if res.HarnessError != "" {
 			emit(map[string]any{"t": "harness_error", "index": idx, "run_seed": seed, "error": res.HarnessError, "case": c, "tape": rec})
